@@ -458,6 +458,16 @@ theorem Nxt.rest {inp : List Char} {bad bad' : Char → Prop} {sep s : Bool} {q 
     exact ⟨hn'.tok, headNot_mono hb hn'.ok, fun h => hn'.glue (hs rfl h)⟩
   · exact Nxt.of_hd hat hR hP
 
+/-- … where the bad set of the result only has to be contained in the outer one when the rest is empty -/
+theorem Nxt.rest' {inp : List Char} {bad bad' : Char → Prop} {sep s : Bool} {q : Nat} {R : List Char} {P : Char → Prop}
+    (hat : HasAt inp q R) (hn : Nxt inp bad sep (q + R.length)) (hR : R = [] ∨ Hd P R)
+    (hP : ∀ d, P d → ¬ trivia d ∧ ¬ bad' d ∧ ¬ nameCont d) (hb : R = [] → ∀ d, bad' d → bad d)
+    (hs : R = [] → s = false → sep = false) : Nxt inp bad' s q := by
+  rcases hR with rfl | hR
+  · have hn' : Nxt inp bad sep q := by simpa using hn
+    exact ⟨hn'.tok, headNot_mono (hb rfl) hn'.ok, fun h => hn'.glue (hs rfl h)⟩
+  · exact Nxt.of_hd hat hR hP
+
 /-- the trailing gap of a token that ends at `q` -/
 theorem Nxt.gap {inp : List Char} {bad : Char → Prop} {sep : Bool} {q : Nat} {t : List Char} (hτ : Ws t)
     (hat : HasAt inp q (gapS sep t)) (hn : Nxt inp bad sep (q + (gapS sep t).length)) :
@@ -552,14 +562,14 @@ variable {α : Type} (ri : Bool → Nat → α → List Char) (sepMid sepLast : 
 
 /-- a non-empty list of items, each parsed by `e` into one pair: the iterations of `e+` over the rendering, up to the
     offset after the last item's gap, where `e` fails -/
-theorem items_many1K {inp : List Char} (e : Expr) (bad : Char → Prop) (K : Nat)
+theorem items_many1K {inp : List Char} (e : Expr) (bad : Bool → Char → Prop) (K : Nat)
     (Good : Bool → Nat → α → Pair → Prop) :
     ∀ (r : List α) (a : α) (p : Nat),
-      (∀ x ∈ a :: r, ∀ s p, HasAt inp p (ri s p x) → Nxt inp bad s (p + (ri s p x).length) →
+      (∀ x ∈ a :: r, ∀ s p, HasAt inp p (ri s p x) → Nxt inp (bad s) s (p + (ri s p x).length) →
         ∃ pr, RunsK (B (ri s p x).length + K) e (At inp p) (At inp (p + (ri s p x).length)) [pr] ∧ Good s p x pr) →
-      (∀ x ∈ a :: r, ∀ s p, Hd (fun d => ¬ trivia d ∧ ¬ bad d ∧ (sepMid = false → ¬ nameCont d)) (ri s p x)) →
+      (∀ x ∈ a :: r, ∀ s p, Hd (fun d => ¬ trivia d ∧ ¬ bad sepMid d ∧ (sepMid = false → ¬ nameCont d)) (ri s p x)) →
       HasAt inp p (renderItems ri sepMid sepLast p (a :: r)) →
-      Nxt inp bad sepLast (p + (renderItems ri sepMid sepLast p (a :: r)).length) →
+      Nxt inp (bad sepLast) sepLast (p + (renderItems ri sepMid sepLast p (a :: r)).length) →
       Fails gList (K + 100) true e .nonAtomic (At inp (p + (renderItems ri sepMid sepLast p (a :: r)).length)) →
       ∃ pss, Many1K e (B (renderItems ri sepMid sepLast p (a :: r)).length + K + 1) (At inp p)
           (At inp (p + (renderItems ri sepMid sepLast p (a :: r)).length)) pss ∧
@@ -583,9 +593,9 @@ theorem items_many1K {inp : List Char} (e : Expr) (bad : Char → Prop) (K : Nat
     -- the next item's first character
     obtain ⟨s', tail, htail⟩ := renderItems_cons ri sepMid sepLast (p + ta.length) b r
     have hb := hhead b (List.mem_cons_of_mem _ (List.mem_cons_self ..)) s' (p + ta.length)
-    have hbt : Hd (fun d => ¬ trivia d ∧ ¬ bad d ∧ (sepMid = false → ¬ nameCont d)) tl := by
+    have hbt : Hd (fun d => ¬ trivia d ∧ ¬ bad sepMid d ∧ (sepMid = false → ¬ nameCont d)) tl := by
       rw [← hrest, htail]; exact hb.append _
-    have hnx : Nxt inp bad sepMid (p + ta.length) :=
+    have hnx : Nxt inp (bad sepMid) sepMid (p + ta.length) :=
       ⟨tok_of_hd h3 hbt (fun d h => h.1), headNot_of_hd h3 hbt (fun d h => h.2.1),
         fun hs => headNot_of_hd h3 hbt (fun d h => h.2.2 hs)⟩
     obtain ⟨pr, hrun, hgood⟩ := hitem a (List.mem_cons_self ..) sepMid p (hta ▸ h1) (by rw [hta]; exact hnx)
@@ -715,6 +725,23 @@ theorem goodItems_clean (Good : Bool → Nat → α → Pair → Prop) :
     | cons b r =>
       obtain ⟨pr, pss', rfl, hgood, hrest⟩ := hg
       exact ⟨h a (List.mem_cons_self ..) _ p pr hgood, ih (fun x hx => h x (List.mem_cons_of_mem _ hx)) _ _ hrest⟩
+
+theorem goodItems_map {γ : Type} (Good : Bool → Nat → α → Pair → Prop) (f : Pair → γ) (wp : Bool → Nat → α → γ) :
+    ∀ (as : List α), (∀ a ∈ as, ∀ s p pr, Good s p a pr → f pr = wp s p a) → ∀ (p : Nat) (pss : List Pair),
+    GoodItems ri sepMid sepLast Good p as pss → pss.map f = mapItems ri sepMid sepLast wp p as := by
+  intro as
+  induction as with
+  | nil => intro _ p pss hg; simp only [GoodItems] at hg; subst hg; rfl
+  | cons a r ih =>
+    intro h p pss hg
+    cases r with
+    | nil =>
+      obtain ⟨pr, rfl, hgood⟩ := hg
+      simp [mapItems, h a (List.mem_cons_self ..) _ p pr hgood]
+    | cons b r =>
+      obtain ⟨pr, pss', rfl, hgood, hrest⟩ := hg
+      have := ih (fun x hx => h x (List.mem_cons_of_mem _ hx)) _ _ hrest
+      simp [mapItems, h a (List.mem_cons_self ..) _ p pr hgood, this]
 
 theorem goodItems_forall (Good : Bool → Nat → α → Pair → Prop) (P : Pair → Prop) :
     ∀ (as : List α), (∀ a ∈ as, ∀ s p pr, Good s p a pr → P pr) → ∀ (p : Nat) (pss : List Pair),
